@@ -5,13 +5,13 @@ V = os.path.dirname(os.path.dirname(os.path.abspath(__file__)))
 
 CLAIMED = {
  "C13": dict(
-    text="Proof of the share-or-copy machinery. Kani (full i32 domain): function contracts on the real Generation methods, lemmas over them, coherence of the collector's mark test with the cloner's share test on a real one-object heap. Verus (unbounded, bodies extracted every run): Value::generation, Cloner::{new, force_full_clone, deep_clone, deep_clone_inner, deep_clone_array, deep_clone_ptr (visited map keyed by object address; remembered copies are never forgotten)}, Gc::new_child_gc, Thread::can_share_values_with (parent-chain walk with an inductive invariant over a thread tree of any depth), Thread::deep_clone_value, RootedValue::re_root, the vm_push of RootedValue, <Reference as Userdata>::deep_clone and <Lazy as Userdata>::deep_clone: a pointer crosses uncopied only into its own heap or a descendant's; into an unrelated thread everything is copied; every pointer-carrying array representation has its elements cloned. Found and repaired the string-array defect.",
-    note="Trusted: env.rs stand-ins; the per-representation helpers deep_clone_str/data/closure/app and Userdata::deep_clone of other userdata are ASSUMED to return new objects of the receiving heap; thread-tree axiom (child = one level deeper, one generation younger, same global state); get_type_info stubbed in the Kani coherence harness. Not under contract: structural equality of copies, lifetime after the sender is dropped, the transfer sites' choice of owner (argued by hand in DESIGN 6.4).",
+    text="Proof of the share-or-copy machinery. Kani (full i32 domain): function contracts on the real Generation methods, lemmas over them, coherence of the collector's mark test with the cloner's share test on a real one-object heap. Verus (unbounded, bodies extracted every run): Value::generation, Cloner::{new, force_full_clone, deep_clone, deep_clone_inner, deep_clone_array, deep_clone_ptr (visited map keyed by object address; remembered copies are never forgotten)}, Gc::new_child_gc, Thread::can_share_values_with (parent-chain walk with an inductive invariant over a thread tree of any depth), Thread::deep_clone_value, RootedValue::re_root, the vm_push of RootedValue, <Reference as Userdata>::deep_clone, <Lazy as Userdata>::deep_clone, and the transfer sites send / reference set / st::set / lazy store (what is kept is the copy made for the owning thread): a pointer crosses uncopied only into its own heap or a descendant's; into an unrelated thread everything is copied; every pointer-carrying array representation has its elements cloned. Found and repaired the string-array defect.",
+    note="Trusted: env.rs stand-ins; the per-representation helpers deep_clone_str/data/closure/app and Userdata::deep_clone of other userdata are ASSUMED to return new objects of the receiving heap; thread-tree axiom (child = one level deeper, one generation younger, same global state); get_type_info stubbed in the Kani coherence harness. Not under contract: structural equality of copies, lifetime after the sender is dropped, the glue between the transfer-site units (uninterpreted holdable_by, established by the assumed deep_clone_value contract) and the generation rule proved in the clone unit (DESIGN 6.4).",
     technique="Kani function contracts on compiled code + Verus contracts on mechanically extracted bodies (incl. an inductive loop invariant for the parent-chain walk)",
     design="2/C13"),
  "C17": dict(
-    text="Proof (Verus/Z3, unbounded) of sequential contracts on the real bodies of Sender::send, Receiver::try_recv, the send primitive, reference set/get/make_ref and their st twins (extracted mechanically every run), plus inductive lemmas that the contracts imply FIFO exactly-once delivery and last-write-wins for every operation history; and a contract on the failure arm of lazy force (a failed evaluation must not leave the value 'being evaluated'), which fails on the real code and is recorded as a known finding with a native demonstration. Partial: the rest of lazy and coroutines are not covered.",
-    note="Trusted: env.rs stand-in types, R-lock (bodies verified as critical sections), assumed contract of deep_clone_value (structurally equal copy), clone_unrooted as identity. The async state machine of lazy force (blackhole detection, waiters) and resume/yield/spawn are outside both tools. Known finding C17/lazy/force_thunk_failed is reported, not repaired.",
+    text="Proof (Verus/Z3, unbounded) of sequential contracts on the real bodies of Sender::send, Receiver::try_recv, the send and recv primitives, reference set/get/make_ref and their st twins (extracted mechanically every run), plus inductive lemmas that the contracts imply FIFO exactly-once delivery and last-write-wins for every operation history; lazy force in four synchronous pieces: the arm that starts the evaluation (value marked as being evaluated by the forcing thread: at most one evaluation), the arms for a value being evaluated / computed (forced by the evaluating thread => error at once; by another thread => waits on the registered channel, earlier registrations kept; computed => that value), the success arm (value stored for good) and the failure arm -- the last fails on the real code and is recorded as a known finding with a native demonstration; the outcome reporting of the resume primitive and the dead-thread check of Thread::resume. Partial: coroutine scheduling and the waiter wake-up are not covered.",
+    note="Trusted: env.rs stand-in types, R-lock (bodies verified as critical sections), assumed contract of deep_clone_value (structurally equal copy made for its receiver), clone_unrooted as identity, oneshot channel identity, thread identity = address; the async block of force and the waiter continuation are replaced by stand-ins (only their synchronous arms are verified). yield_/spawn, poll/wake scheduling and that stored waiters are actually fired are outside both tools. Known finding C17/lazy/force_thunk_failed is reported, not repaired.",
     technique="Verus contracts on mechanically extracted function bodies + inductive history lemmas",
     design="2/C17"),
  "C01": dict(
@@ -20,13 +20,13 @@ CLAIMED = {
     technique="Verus contracts on extracted bodies + generated Kani harnesses over the interpreter arm table",
     design="2/C01"),
  "C06": dict(
-    text="Proof (Kani, full argument domains; &str arguments bounded to <= 2 chars and labelled bounded) that every scalar primitive registered in load_int/load_byte/load_char/load_float/load_string - the registered expression text itself, parsed from the tables every run - and each of the 18 arithmetic/comparison arms of the interpreter neither panics nor traps nor exhibits UB on any well-typed argument; Verus contracts on StackFrame::exit_scope (a locked frame is never popped), reset_stack (exactly the frames above the recorded level are removed), async_status_push (a failed push becomes Status::Error and cannot itself fail), the validation head of array::slice, std.random gen_int_range, std.io write_slice_file / read_file (the last three against documented contracts of dependencies). Found and repaired five classes of host-aborting primitives; found (and recorded as a known finding) that reset_stack does not reclaim the values of a failed run.",
-    note="Trusted: debug-profile semantics; alloc::fmt::format stubbed; pow's overflow trap asserted through checked_pow because Kani does not model it; assumed dependency contracts (rand random_range panics on an empty range, Vec::with_capacity panics above isize::MAX bytes, slice indexing panics out of range); 51 table entries (libm floats, string searchers, unicode tables, Thread-dependent) are skipped and listed in evidence; strings longer than 2 chars are not explored; userdata/regex/most IO primitives, unpack_and_call, call_thunk_top and the future plumbing of async result delivery are unverified. Known finding C06/thread/reset_stack_values is reported, not repaired.",
+    text="Proof (Kani, full argument domains; &str arguments bounded to <= 2 chars and labelled bounded) that every scalar primitive registered in load_int/load_byte/load_char/load_float/load_string - the registered expression text itself, parsed from the tables every run - and each of the 18 arithmetic/comparison arms of the interpreter neither panics nor traps nor exhibits UB on any well-typed argument; Verus contracts on StackFrame::exit_scope (a locked frame is never popped), reset_stack (exactly the frames above the recorded level are removed), the error closure of call_thunk_top (whatever kind of error ends a top-level evaluation, the frames above the recorded level are removed), the ready path of return_future's poll closure (the primitive's frame is unlocked on every path), async_status_push (a failed push becomes Status::Error and cannot itself fail), the validation head of array::slice, std.random gen_int_range, std.io write_slice_file / read_file (the last three against documented contracts of dependencies). Found and repaired five classes of host-aborting primitives; found (and recorded as a known finding) that reset_stack does not reclaim the values of a failed run.",
+    note="Trusted: debug-profile semantics; alloc::fmt::format stubbed; pow's overflow trap asserted through checked_pow because Kani does not model it; assumed dependency contracts (rand random_range panics on an empty range, Vec::with_capacity panics above isize::MAX bytes, slice indexing panics out of range); 51 table entries (libm floats, string searchers, unicode tables, Thread-dependent) are skipped and listed in evidence; strings longer than 2 chars are not explored; userdata/regex/most IO primitives, unpack_and_call (macro-generated), the callers of call_thunk_top and the rest of the future plumbing are unverified; in the toplevel unit Context/Stack are projected on frame list + lock flag and reset_stack's contract is assumed (proved in the stack unit). Known finding C06/thread/reset_stack_values is reported, not repaired.",
     technique="generated Kani harnesses (one per primitive!() table entry and per arithmetic interpreter arm) + Verus contracts on extracted bodies",
     design="2/C06"),
  "C07": dict(
-    text="Proof of the three limit computations: Kani (symbolic counters, full usize domain) on the real Gc::alloc_owned (accounted memory never exceeds the limit; failure leaves the heap untouched) and check_collect; Verus on the real add_new_frame (frame entered iff len + max_stack_size <= limit), enter_scope / enter_scope_excess, on the per-instruction step of static stack accounting (adjust/emit/increase_stack/emit_call), on the tail flag of the && / || operands, on every TailCall arm of the interpreter (frame list shrinks and the new call reuses the returning function's slot: constant stack) and on ExecuteContext::exit_scope. Found and repaired the header-not-counted defect.",
-    note="Trusted: get_type_info stubbed; allocated_memory <= isize::MAX; no u32 wrap in len+max_stack_size; operand_fits. Interrupt polling (shape of the execute loop), native-stack depth and the induction over compile_ are not under contract.",
+    text="Proof of the three limit computations: Kani (symbolic counters, full usize domain) on the real Gc::alloc_owned (accounted memory never exceeds the limit; failure leaves the heap untouched) and check_collect; Verus on the real add_new_frame (frame entered iff len + max_stack_size <= limit), enter_scope / enter_scope_excess, on the per-instruction step of static stack accounting (adjust/emit/increase_stack/emit_call), on the tail flag of the && / || operands, on every TailCall arm of the interpreter (frame list shrinks and the new call reuses the returning function's slot: constant stack) on ExecuteContext::exit_scope, and on the head of the frame loop of OwnedContext::execute (every pass -- call, tail call, return -- polls the interrupt flag before dispatching). Found and repaired the header-not-counted defect.",
+    note="Trusted: get_type_info stubbed; allocated_memory <= isize::MAX; no u32 wrap in len+max_stack_size; operand_fits; the interrupt flag is a pure read for one loop iteration and the rest of the loop body is not in the extracted head. That one pass of the loop takes bounded time (extern functions), native-stack depth and the induction over compile_ are not under contract.",
     technique="Kani harnesses on the real allocator + Verus contracts on extracted bodies",
     design="2/C07"),
  "C08": dict(
